@@ -29,16 +29,16 @@ import (
 func init() { register("C14", runC14) }
 
 type c14Case struct {
-	Resp    string `json:"response"`
-	BodyHex string `json:"body_hex"`
-	Bounds  []int  `json:"package_bounds"` // body offsets where packages end
-	Kinds   []string `json:"kinds"`
-	Cuts    []int  `json:"packet_cuts"`
-	CutClass string `json:"cut_class"`
-	Offset  int    `json:"fault_offset"` // bytes of the stream delivered before the fault
-	Style   string `json:"style"`        // eof | eof-with-data | reset | timeout
-	ReadTimeout int `json:"packet_read_timeout"`
-	Chunk   string `json:"chunking"` // "one" | "per-packet" : how the delivered prefix is handed to Read
+	Resp        string   `json:"response"`
+	BodyHex     string   `json:"body_hex"`
+	Bounds      []int    `json:"package_bounds"` // body offsets where packages end
+	Kinds       []string `json:"kinds"`
+	Cuts        []int    `json:"packet_cuts"`
+	CutClass    string   `json:"cut_class"`
+	Offset      int      `json:"fault_offset"` // bytes of the stream delivered before the fault
+	Style       string   `json:"style"`        // eof | eof-with-data | reset | timeout
+	ReadTimeout int      `json:"packet_read_timeout"`
+	Chunk       string   `json:"chunking"` // "one" | "per-packet" : how the delivered prefix is handed to Read
 	// Prelude: a complete earlier response was delivered and consumed on the
 	// channel before the response that is cut off by the fault
 	Prelude bool `json:"second_response_on_channel,omitempty"`
